@@ -422,6 +422,9 @@ func runWorld(t *testing.T, res *vh.Result, tr *vh.Trace, wi int, sched []step, 
 			fail("stuck", "state synchronisation is active but needs nothing", nil)
 			return
 		}
+		if r.Intn(16) == 0 {
+			s = step{Op: "restart"} // restarts also late in a stage (most of the trie restored, most blocks stored)
+		}
 		if !apply(s) {
 			return
 		}
